@@ -71,9 +71,10 @@ class Bound:
         self.assumed = set()
         self.nfun = set()
 
-    def summary(self, fn):
-        if fn.id in self.memo:
-            return self.memo[fn.id]
+    def summary(self, fn, args=None):
+        key = fn.id if not args or all(a is None for a in args) else (fn.id, tuple(args))
+        if key in self.memo:
+            return self.memo[key]
         if fn.id in self.stack:
             raise AnalysisBroken('BOUND: recursion through %s' % fn.id)
         if fn.body is None:
@@ -83,16 +84,22 @@ class Bound:
         if self.ctx is not None:
             self.ctx.analysed(fn)
         fr = BFrame(self, fn)
+        for q, a in zip(fn.params, args or []):
+            if a is not None:
+                fr.env[('P', q['id'])] = a
         fr.run(fn.body)
         if fr.need_second:
             fr2 = BFrame(self, fn)
+            for q, a in zip(fn.params, args or []):
+                if a is not None:
+                    fr2.env[('P', q['id'])] = a
             fr2.cache = fr.cache
             fr2.run(fn.body)
             fr = fr2
         r = hull(*fr.rets) if fr.rets else (0, 0)
         self.stack.pop()
-        self.memo[fn.id] = (r, fr.ret_sites)
-        return self.memo[fn.id]
+        self.memo[key] = (r, fr.ret_sites)
+        return self.memo[key]
 
 
 class BFrame:
@@ -559,15 +566,14 @@ class BFrame:
             return self.b.endgame
         callee = self.b.p.funcs.get(cal.get('fid'))
         rt = (n.get('t') or '')
-        for a in args:
-            self.ev(a, False)
+        argv = [self.ev(a, False) if a['k'] != 'LambdaExpr' else None for a in args]
         if callee is None or callee.body is None:
             if is_num(rt) or 'Score' in rt:
                 raise AnalysisBroken('BOUND: numeric call to %s at %s has no body' % (name, self.fn.loc(n)))
             return TOP
         if not (is_num(rt) or 'Score' in rt):
             return TOP
-        r, _ = self.b.summary(callee)
+        r, _ = self.b.summary(callee, argv if n['k'] == 'CallExpr' and len(argv) == len(callee.params) else None)
         return r
 
 
